@@ -104,17 +104,38 @@ class DataAssign:
         m = all_[i % len(all_)]
         if not m.data.size:
             return None
-        return {"op": "data_assign", "arr": i, "reg": gen_region(rng, m.data.shape),
-                "vseed": rng.randrange(1 << 30), "via": gen_via(run, rng)}
+        o = {"op": "data_assign", "arr": i, "reg": gen_region(rng, m.data.shape),
+             "vseed": rng.randrange(1 << 30), "via": gen_via(run, rng)}
+        if rng.random() < 0.25 and m.data.ndim >= 1:
+            # assignment through a DataView (get_slice): the region is relative to the view
+            pos = [rng.randrange(e) for e in m.data.shape]
+            ext = [rng.randint(1, e - p) for e, p in zip(m.data.shape, pos)]
+            o["view"] = [pos, ext]
+            o["reg"] = gen_region(rng, ext)
+        return o
 
     def do(self, run, o):
         m = run.pick("array", o["arr"])
-        if m is None or not region_valid(o["reg"], m.data.shape):
+        if m is None:
+            return res(NOOP)
+        target = m.data
+        if o.get("view"):
+            pos, ext = o["view"]
+            if len(pos) != m.data.ndim or any(p < 0 or e < 1 or p + e > s for p, e, s in zip(pos, ext, m.data.shape)):
+                return res(NOOP)
+            target = m.data[tuple(slice(p, p + e) for p, e in zip(pos, ext))]      # a numpy view of the model data
+        if not region_valid(o["reg"], target.shape):
             return res(NOOP)
         index = region_index(o["reg"])
-        sel_shape = np.asarray(m.data[index]).shape if not isinstance(m.data[index], str) else ()
+        sel_shape = np.asarray(target[index]).shape if not isinstance(target[index], str) else ()
         v = values_for(m, sel_shape, o["vseed"], run.knobs.get("calib_values", False))
         h = run.R(m, o.get("via", 0))
+        if o.get("view"):
+            rv = run.call(lambda: h.get_slice(pos, ext))
+            if rv[0] == "exc":
+                run.violation("array_read", "data_assign", "get_slice_raises:" + type(rv[1]).__name__, repr(rv[1])[:200])
+            h = rv[1]
+            run.stats["assign_through_view"] += 1
         key = index if len(index) > 1 else index[0]
         if sel_shape == ():
             val = v.reshape(()).item() if not m.is_text else v.reshape(-1)[0]
@@ -122,7 +143,7 @@ class DataAssign:
             val = v
         r = run.call(lambda: h.__setitem__(key, val))
         run.expect_ok(r, "data_assign")
-        m.data[index] = v if sel_shape != () else val
+        target[index] = v if sel_shape != () else val
         run.stats["data_region_assigns"] += 1
         if m.data.ndim > len(index):
             run.stats["assign_partial_axes"] += 1
@@ -437,16 +458,29 @@ class CalibTagRead:
     set must equal the polynomial of the same region read with the calibration cleared."""
 
     def gen(self, run, rng):
-        ts = [t for t in run.enum("tag") if t.references or t.features]
+        ts = self._cands(run)
         if not ts:
             return None
-        return {"op": "calib_tag_read", "tag": idx(rng), "which": idx(rng), "feat": rng.random() < 0.4}
+        return {"op": "calib_tag_read", "tag": idx(rng), "which": idx(rng), "feat": rng.random() < 0.4,
+                "pos": idx(rng)}
+
+    @staticmethod
+    def _cands(run):
+        """tags, and multi-tags that have at least one position, with something to read."""
+        out = [t for t in run.enum("tag") if t.references or t.features]
+        for t in run.enum("mtag"):
+            p = getattr(t, "positions", None)
+            if (t.references or t.features) and p is not None and p.data.ndim >= 1 and p.data.shape[0] > 0:
+                out.append(t)
+        return out
 
     def do(self, run, o):
-        ts = [t for t in run.enum("tag") if t.references or t.features]
+        ts = self._cands(run)
         if not ts:
             return res(NOOP)
         t = ts[o["tag"] % len(ts)]
+        multi = t.kind == "mtag"
+        pidx = (o.get("pos", 0) % t.positions.data.shape[0]) if multi else None
         use_feat = o.get("feat") and t.features
         if use_feat:
             f = t.features[o["which"] % len(t.features)]
@@ -461,7 +495,18 @@ class CalibTagRead:
             return res(NOOP)
         th = run.R(t, 0)
         ah = run.R(m, 0)
-        fn = (lambda: np.asarray(th.feature_data(i)[:])) if use_feat else (lambda: np.asarray(th.tagged_data(i)[:]))
+        fkey = i
+        if use_feat and [x.data for x in t.features].count(m) == 1:
+            # the feature addressed by position, by its data's name or by its data's id
+            fkey = (i, m.name, m.id)[o.get("pos", 0) % 3]
+            if not isinstance(fkey, int):
+                run.stats["feature_data_by_name_or_id"] += 1
+        if multi:
+            fn = (lambda: np.asarray(th.feature_data(pidx, fkey)[:])) if use_feat else \
+                (lambda: np.asarray(th.tagged_data(pidx, i)[:]))
+            run.stats["mtag_path_reads_tried"] += 1
+        else:
+            fn = (lambda: np.asarray(th.feature_data(fkey)[:])) if use_feat else (lambda: np.asarray(th.tagged_data(i)[:]))
         r1 = run.call(fn)
         if r1[0] == "exc":
             run.stats["tag_read_unavailable"] += 1
@@ -484,5 +529,56 @@ class CalibTagRead:
             run.violation("array_read", "tag_read", "raw_dtype", "%r vs %r" % (raw.dtype, m.data.dtype))
         want = poly(m, raw)
         _cmp(run, "feature_data" if use_feat else "tagged_data", "calibrated_region", r1[1], want)
-        run.stats["tag_path_calibrated_reads"] += 1
+        run.stats["mtag_path_calibrated_reads" if multi else "tag_path_calibrated_reads"] += 1
+        return res(OK)
+
+
+@op("calib_slice_read")
+class CalibSliceRead:
+    """The same metamorphic oracle for views addressed in data coordinates
+    (get_slice(..., DataSliceMode.Data)): slicing and calibration commute."""
+
+    @staticmethod
+    def _cands(run):
+        return [a for a in run.enum("array")
+                if a.data.ndim >= 1 and a.data.size and not a.is_text and a.data.dtype.kind != "b"
+                and len(a.dimensions) == a.data.ndim and (len(a.polynom_coefficients) or a.expansion_origin)]
+
+    def gen(self, run, rng):
+        if not self._cands(run):
+            return None
+        return {"op": "calib_slice_read", "arr": idx(rng),
+                "pos": [P.pick(rng, [0.0, 0.0, 0.5, 1.0, 2.0]) for _ in range(4)],
+                "ext": [P.pick(rng, [0.0, 1.0, 2.0, 3.5, 10.0]) for _ in range(4)]}
+
+    def do(self, run, o):
+        cs = self._cands(run)
+        if not cs:
+            return res(NOOP)
+        m = cs[o["arr"] % len(cs)]
+        ah = run.R(m, 0)
+        pos, ext = o["pos"][:m.data.ndim], o["ext"][:m.data.ndim]
+        fn = lambda: np.asarray(ah.get_slice(pos, ext, nixio.DataSliceMode.Data)[:])  # noqa
+        r1 = run.call(fn)
+        if r1[0] == "exc":
+            run.stats["data_slice_unavailable"] += 1
+            return res(NOOP)      # region not resolvable: C07's business
+        coeff, origin = m.polynom_coefficients, m.expansion_origin
+        auto = run.fstate().real.auto_update_timestamps
+        run.fstate().real.auto_update_timestamps = False
+        try:
+            ah.polynom_coefficients = None
+            ah.expansion_origin = None
+            r0 = run.call(fn)
+        finally:
+            ah.polynom_coefficients = list(coeff) if len(coeff) else None
+            ah.expansion_origin = origin
+            run.fstate().real.auto_update_timestamps = auto
+        if r0[0] == "exc":
+            run.violation("array_read", "data_slice", "raw_region_raises", repr(r0[1])[:200])
+        raw = r0[1]
+        if raw.size and raw.dtype != m.data.dtype:
+            run.violation("array_read", "data_slice", "raw_dtype", "%r vs %r" % (raw.dtype, m.data.dtype))
+        _cmp(run, "data_slice", "calibrated_region", r1[1], poly(m, raw))
+        run.stats["data_slice_calibrated_reads" if raw.size else "data_slice_empty_reads"] += 1
         return res(OK)
